@@ -1201,7 +1201,8 @@ class TaskScenario(ScenarioData):
 
         consecutive_count = 0
         current_slot = self.currentSlotIdx if self.currentSlotIdx is not None else 0
-        max_slots = 1000
+        # Never look past the slot table (the horizon may be shorter than any fixed number)
+        max_slots = self.project.scoreboardSize()
 
         while current_slot < max_slots and consecutive_count < slots_needed:
             if self.project.isWorkingTime(current_slot):
